@@ -831,7 +831,7 @@ fn judge_whitener<F: Float>(ctx: &mut Ctx, class: &str, tag: &str, method: &str,
         let c = cov(&yf, p);
         // forward error of the factorisations: SVD of the centred data ~ sqrt(cond), covariance route ~ cond
         // (cond includes the offset: max|x|^2 / smallest eigenvalue)
-        let tol = 128.0 * e * cond.max(1.0);
+        let tol = 128.0 * e * cond.max(1.0) + 65536.0 * e;
         let mut worst = 0.0f64;
         for a in 0..p {
             for b in 0..p {
@@ -873,7 +873,7 @@ fn judge_whitener<F: Float>(ctx: &mut Ctx, class: &str, tag: &str, method: &str,
                 dev = dev.max(d);
             }
         }
-        let tol = 128.0 * e * cond.max(1.0);
+        let tol = 128.0 * e * cond.max(1.0) + 65536.0 * e;
         tally(t, &format!("judged:{}:method_shape:{}", tag, method));
         tally(t, &format!("shape_margin:{}:{}:1e{}", tag, method, (dev / tol).max(1e-9).log10().ceil() as i64));
         ctx.require(dev <= tol, "whitening_method_shape", class, || format!("the matrix of method {} deviates from the method's shape (orthogonal rows / symmetric / upper triangular) by {:e} (tol {:e})", method, dev, tol));
